@@ -189,6 +189,73 @@ example :
       = some (merge table (merge table (zero table) exA) exB) ∧
     readPaths table [.file (some exA), .dir [⟨"x.json", false, none⟩]] = none := by decide
 
+/-! ## DecodeConfig's post-processing (what a source file contributes) -/
+
+/-- `DecodeConfig` is: JSON-decode, `mapstructure`-decode into a fresh `Config` rejecting unknown
+keys (`ErrorUnused: true`), then one block per duration setting, in this order, each of the shape
+`if result.XRaw != "" { dur, err := time.ParseDuration(result.XRaw); if err != nil { return nil, err }; result.X = dur }`,
+then `return &result, nil`. -/
+theorem C31_decode_shape :
+    Gen.MergeConfig.decodeTokens =
+      ["decl", "json-decoder", "json-decode-or-fail", "decl", "decl",
+       "mapstructure{Metadata: &md, Result: &result, ErrorUnused: true}", "fail", "mapstructure-decode-or-fail",
+       "duration", "duration", "duration", "duration", "duration", "return"] ∧
+    Gen.MergeConfig.durationPairs =
+      [("ReconnectIntervalRaw", "ReconnectInterval"), ("ReconnectTimeoutRaw", "ReconnectTimeout"),
+       ("TombstoneTimeoutRaw", "TombstoneTimeout"), ("RetryIntervalRaw", "RetryInterval"),
+       ("BroadcastTimeoutRaw", "BroadcastTimeout")] := by decide
+
+/-- every `*Raw` string of `Config` has its block, raw strings and durations do not overlap, no
+duration is written twice, and the fields have the expected types -/
+theorem C31_decode_pairs_ok :
+    (∀ pr ∈ Gen.MergeConfig.durationPairs, ∀ pr' ∈ Gen.MergeConfig.durationPairs, pr.1 ≠ pr'.2) ∧
+    (Gen.MergeConfig.durationPairs.map (·.2)).Nodup ∧
+    (∀ pr ∈ Gen.MergeConfig.durationPairs,
+      table.any (fun fs => fs.name == pr.1 && fs.kind == .str) = true ∧
+      table.any (fun fs => fs.name == pr.2 && fs.kind == .dur) = true) ∧
+    (∀ fs ∈ table, endsWithRaw fs.name = true → (Gen.MergeConfig.durationPairs.map (·.1)).contains fs.name = true) := by
+  decide
+
+/-- **What a file contributes after `DecodeConfig`'s post-processing**, for every decoded field
+assignment `c` (the result of the JSON / mapstructure step) and every behaviour `parseDur` of
+`time.ParseDuration`: decoding fails exactly when some non-empty `XRaw` does not parse;
+otherwise every duration `X` whose `XRaw` is non-empty is the parsed value and EVERY other
+field — also a duration whose raw string is empty — is what the file's JSON gave. -/
+theorem C31_decode (parseDur : String → Option Int) (c : Config) (hc : WT table c) :
+    match decodePost parseDur Gen.MergeConfig.durationPairs c with
+    | none => ∃ pr ∈ Gen.MergeConfig.durationPairs, ∃ s, get c pr.1 = .str s ∧ s ≠ "" ∧ parseDur s = none
+    | some c' => (∀ f, f ∉ Gen.MergeConfig.durationPairs.map (·.2) → get c' f = get c f) ∧
+        ∀ pr ∈ Gen.MergeConfig.durationPairs, ∃ s, get c pr.1 = .str s ∧
+          (s = "" → get c' pr.2 = get c pr.2) ∧ (s ≠ "" → ∃ n, parseDur s = some n ∧ get c' pr.2 = .int n) := by
+  obtain ⟨h1, h2, h3, _⟩ := C31_decode_pairs_ok
+  apply decodePost_spec parseDur _ c h1 h2
+  · intro pr hpr
+    obtain ⟨fs, hfs, hk⟩ := List.any_eq_true.mp (h3 pr hpr).2
+    simp only [Bool.and_eq_true, beq_iff_eq] at hk
+    have := hc fs hfs
+    rw [hk.2, hk.1] at this
+    obtain ⟨i, hi⟩ := hasKind_dur this
+    cases ha : alookup c pr.2 with
+    | some x => rfl
+    | none => simp [SerfModel.Config.get, ha] at hi
+  · intro pr hpr
+    obtain ⟨fs, hfs, hk⟩ := List.any_eq_true.mp (h3 pr hpr).1
+    simp only [Bool.and_eq_true, beq_iff_eq] at hk
+    have := hc fs hfs
+    rw [hk.2, hk.1] at this
+    exact hasKind_str this
+
+def exRaw : Config := (zero table).map fun p =>
+  if p.1 == "RetryIntervalRaw" then (p.1, .str "5s") else if p.1 == "BroadcastTimeoutRaw" then (p.1, .str "soon") else p
+
+/-- non-vacuity: a well-typed decoded file; with a parser that knows "5s" only, decoding fails on
+"soon"; with one that also reads "soon", `RetryInterval` becomes 5 s and `BroadcastTimeout` 1 -/
+example : WT table exRaw ∧
+    decodePost (fun s => if s = "5s" then some 5000000000 else none) Gen.MergeConfig.durationPairs exRaw = none ∧
+    ((decodePost (fun s => if s = "5s" then some 5000000000 else some 1) Gen.MergeConfig.durationPairs exRaw).map
+      fun c => (get c "RetryInterval", get c "BroadcastTimeout", get c "ReconnectInterval"))
+      = some (.int 5000000000, .int 1, .int 0) := by decide
+
 /-! ## No side effects (heap view) -/
 
 /-- `MergeConfig` on a heap: every object that existed before the call — in particular
